@@ -34,7 +34,7 @@ def load_corpus(pid):
 
 
 HOOK_COMMITS = ["29e0810", "739e797", "cf39cf9", "652b91e", "e71d18b", "87e24fd", "a0b177c", "d307356", "a2cf7a8", "32ea923",
-                "c3212bb", "2017279", "f82d6ac", "f4f6e91", "3d9871e", "eae7527", "430b815", "50578be", "8cabe9e", "dbfd1e8", "b5be554", "2061294", "5e81022", "fbbe690", "b82c48c"]
+                "c3212bb", "2017279", "f82d6ac", "f4f6e91", "3d9871e", "eae7527", "430b815", "50578be", "8cabe9e", "dbfd1e8", "b5be554", "2061294", "5e81022", "fbbe690", "b82c48c", "4e87dc5"]
 NOT_CLAIMED = {}
 
 
@@ -126,6 +126,9 @@ class ResolveSpec(Spec):
         bycase = {c["id"]: c for c in allcases}
         for cid, o in obs.items():
             case = bycase[cid]
+            if case.get("expect_refused") and o["status"] != "refused":
+                res["oracle_failures"].append({"id": cid, "what": f"the store was loaded ({o['status']}) although {case['expect_refused']}",
+                                               "finding": None, "case": gen.strip_struct(case)})
             if o["status"] == "refused":
                 continue
             if o["status"] != "ok":
@@ -221,6 +224,9 @@ class C01(ResolveSpec):
             if i % 5 == 2:
                 # what a dev-dependency must meet is decided by one `dependency-criteria` entry of a workspace member
                 gen.boost_dev_dep_policy(rng, c)
+            if i % 5 == 4:
+                # a waived crate (nothing required of it) whose own policy still demands something of its dependency
+                gen.boost_waived_parent(rng, c)
             cases.append(c)
         return cases
 
@@ -258,6 +264,31 @@ class C01(ResolveSpec):
             if why:
                 out.append(f"the chain reported for {o['tables']['nodes'][i]} / {o['tables']['criteria'][c]} is not a chain of records: {why}")
         return out
+
+
+def verdict_vs_records(rep, o):
+    """independent of the implementation's searches: the verdict must be what the records of the store (each counting for
+    the closure of ITS OWN criteria, nothing else) say about every required (crate, criterion) pair"""
+    out = []
+    if rep.kind == "violation":
+        return out
+    store = o["model_input"]["store"]
+    table = O.table_of(store)
+    nodes, _ = O.graph_nodes(o["model_input"]["graph"])
+    names = o["tables"]["nodes"]
+    expected = {}
+    for (i, c) in required_pairs(rep, o):
+        edges = O.edges_of(table, O.pkg_store(store, nodes[i]["name"]))
+        if not O.certified(edges, c, nodes[i]["version"]):
+            expected.setdefault(i, set()).add(c)
+    if rep.kind == "success" and expected:
+        i = sorted(expected)[0]
+        out.append(f"vet succeeds although {names[i]} lacks a chain for {sorted(expected[i])} (records counted for their own criteria and what those imply)")
+    if rep.kind == "failvet":
+        got = {i: O.unbits(b) for i, b in rep.failures().items()}
+        if got != expected:
+            out.append(f"failure report {got} differs from the uncertified required pairs {expected} (records counted for their own criteria and what those imply)")
+    return out
 
 
 class C02(ResolveSpec):
@@ -334,6 +365,22 @@ class C06(ResolveSpec):
     projection_doc = "for every third-party node and criterion: search success and both reachable sets (they expose exactly which grant edges exist)"
     gen_kwargs = {}
 
+    def extra_cases(self):
+        """a project's own wildcard audit ending more than a year after today is refused at load, locked or not"""
+        import random as _r
+        out = []
+        for k, (mode, end) in enumerate([("locked", "2024-01-02"), ("unlocked", "2024-01-02"), ("unlocked", "2025-06-01"),
+                                         ("locked", "2030-01-01"), ("unlocked", "2024-02-29")]):
+            rng = _r.Random(1000 + k)
+            c = gen.gen_unlocked_case(rng, f"far{k}", p_violation=0.0) if mode == "unlocked" else gen.gen_resolve_case(rng, f"far{k}")
+            st = c["store_struct"]
+            crate = sorted({p["name"] for p in c["graph"]["packages"]})[0]
+            st["wildcard_audits"].setdefault(crate, []).append(
+                {"user-id": 1, "start": "2022-01-01", "end": end, "criteria": ["safe-to-run"], "notes": "far ahead"})
+            c["expect_refused"] = f"its own wildcard audit for {crate} ends on {end}, more than a year after today"
+            out.append(gen.finalize(c))
+        return out
+
     def gen_cases(self, rng, n):
         cases = []
         for i in range(n):
@@ -392,6 +439,30 @@ class C12(ResolveSpec):
     rule = ("as C01 with exemptions on in-graph and intermediate versions competing with audits; non-trivial = Success with at "
             "least one crate in each of two different categories or a path mixing exemption and audit edges")
     projection_doc = "success classification lists; for every required (node, criterion) whether the chosen path uses an exemption"
+
+    def model_modules_paths(self):
+        return ["Show", "ShowUpdate"]
+
+    def run(self, rng, tier, work, model_ok=True, ncases=None, replay=None):
+        if replay:
+            with open(replay) as f:
+                r = json.load(f)
+            if (r.get("case", r)).get("kind") == "history":
+                return _C12Hist().run(rng, tier, work, model_ok, ncases, replay)
+        res = super().run(rng, tier, work, model_ok, ncases, replay)
+        if replay:
+            return res
+        # the prune half of the property: command histories through the real cmd_prune, with the update re-evaluated in the
+        # model and the files prune wrote judged by an independent reachability over the records
+        hs = _C12Hist()
+        n = 40 if tier == "quick" else 400
+        r2 = hs.run(__import__("random").Random(rng.random()), tier, os.path.join(work, "hist"), model_ok, ncases=n)
+        res["cases"] += r2["cases"]
+        res["mismatches"] += r2["mismatches"]
+        res["oracle_failures"] += r2["oracle_failures"]
+        res["stats"]["prune_histories"] = r2.get("stats", {})
+        res["stats"]["compared"] = res["stats"].get("compared", 0) + r2.get("stats", {}).get("compared", 0)
+        return res
 
     def gen_cases(self, rng, n):
         cases = []
@@ -524,6 +595,11 @@ class C05(ResolveSpec):
         out = []
         for i in range(n):
             base = gen.gen_resolve_case(rng, f"g{i}-base", ncustom=rng.choice([2, 3, 4]))
+            if i % 3 == 2:
+                # publisher-based grants from several sources with different criteria (each entry keeps ITS criteria)
+                gen.boost_grants(rng, base)
+                gen.boost_grants(rng, base)
+                base = gen.finalize(base)
             out.append(base)
             for how in ("closure", "minimal", "shuffle", "ghost"):
                 v = dict(base)
@@ -555,7 +631,7 @@ class C05(ResolveSpec):
         return any(c.get("implies") for c in case["store_struct"]["criteria"].values()) and "(ok" in o["obs"]
 
     def oracle(self, case, o, rep):
-        out = []
+        out = verdict_vs_records(rep, o)
         table = O.table_of(o["model_input"]["store"])
         implied = [int(x) for x in o["extra"]["implied"]]
         for c in range(O.ncrit(table)):
@@ -1024,6 +1100,32 @@ class C07(ImportSpec):
             "non-trivial = at least one imported entry whose criteria were rewritten through a custom mapping or an exclude that removes something")
     projection_doc = "the complete live import set (per import and crate: audits and wildcard audits with localised criteria and freshness; publisher and unpublished tables), as multisets"
     assumptions = ["mock network / mock crates.io", "peer files are served as generated text and parsed by the real toml + serde code"]
+
+    def run(self, rng, tier, work, model_ok=True, ncases=None, replay=None):
+        res = super().run(rng, tier, work, model_ok, ncases, replay)
+        if replay:
+            return res
+        # locked mode: entries imports.lock still holds for a crate an import now excludes are never accepted, whichever
+        # position the excluding import has among the imports
+        r2 = __import__("random").Random(rng.random())
+        n = 40 if tier == "quick" else 400
+        cases = [gen.gen_stale_exclude_case(r2, f"x{i}") for i in range(n)]
+        obs = vetlib.run_harness([gen.strip_struct(c) for c in cases], os.path.join(work, "impl-locked"))
+        dist = Counter()
+        for c in cases:
+            o = obs.get(c["id"], {})
+            dist[(c["stale_exclude"], (o.get("obs") or o.get("status") or "")[:40])] += 1
+            if o.get("status") != "ok":
+                res["mismatches"].append({"id": c["id"], "why": f"harness {o.get('status')}: {str(o.get('panic') or o.get('error'))[:200]}", "case": gen.strip_struct(c)})
+            elif c["stale_exclude"] and "refused" not in o["obs"]:
+                res["oracle_failures"].append({"id": c["id"], "what": "a locked load accepted imports.lock entries of a crate that the import excludes "
+                                               f"({o['obs'][:60]})", "finding": None, "case": gen.strip_struct(c)})
+            elif not c["stale_exclude"] and "refused" in o["obs"]:
+                res["oracle_failures"].append({"id": c["id"], "what": f"a locked load refused a consistent store ({o['obs'][:80]})", "finding": None,
+                                               "case": gen.strip_struct(c)})
+        res["cases"] += [c["id"] for c in cases]
+        res["stats"]["locked_exclude"] = {f"{a}/{b}": n_ for (a, b), n_ in dist.items()}
+        return res
 
     def gen_cases(self, rng, n):
         out = []
@@ -1846,6 +1948,30 @@ class C14(Spec):
                     if want != got:
                         res["oracle_failures"].append({"id": cid, "what": f"policy table read as {got[:6]}, the file has {want[:6]}", "finding": None,
                                                        "case": gen.strip_struct(case)})
+                if "store_struct" in case and o.get("entries") is not None:
+                    # input fidelity: every audit of the files as generated is read with the flags the file gives it
+                    # (`importable` absent means importable, whatever the version looks like)
+                    st_ = case["store_struct"]
+                    want = Counter()
+                    for f_ in [st_] + list(st_["lock"]["audits"].values()):
+                        for l_ in f_.get("audits", {}).values():
+                            for a_ in l_:
+                                kd = (("full", a_["version"]) if a_.get("kind") == "full" else
+                                      ("delta", a_["from"], a_["to"]) if a_.get("kind") == "delta" else ("violation", a_["violation"]))
+                                want[(kd, tuple(a_["criteria"]), a_.get("importable", True))] += 1
+                    got = Counter()
+                    for ent in o["entries"]:
+                        if ent["type"] != "audit":
+                            continue
+                        t_ = ent["typed"]
+                        kd = t_["kind"]
+                        kd = (("full", kd["full"]) if "full" in kd else ("delta", kd["delta"][0], kd["delta"][1]) if "delta" in kd
+                              else ("violation", kd["violation"]))
+                        got[(kd, tuple(t_["criteria"]), t_["importable"])] += 1
+                    if want != got:
+                        diff = sorted((want - got).elements(), key=str)[:2] + sorted((got - want).elements(), key=str)[:2]
+                        res["oracle_failures"].append({"id": cid, "what": f"audits are not read as the files give them (kind, criteria, importable): {diff}",
+                                                       "finding": None, "case": gen.strip_struct(case)})
                 if flags["bytes_equal_unchecked"] != "1":
                     res["oracle_failures"].append({"id": cid, "what": "writing what was just read does not reproduce the same bytes", "finding": None,
                                                    "case": gen.strip_struct(case)})
@@ -2184,7 +2310,11 @@ class HistorySpec(Spec):
         return []
 
     def gen_cases(self, rng, n):
-        return [gen.scenario_unpublished_vs_peer(f"sc{k}", k) for k in range(3)] + [gen.gen_history(rng, f"h{i}") for i in range(n)]
+        return ([gen.scenario_unpublished_vs_peer(f"sc{k}", k) for k in range(3)] +
+                [gen.scenario_two_versions_exemption(f"tv{k}", k) for k in range(2)] +
+                [gen.scenario_stale_unpublished(f"su{k}", k) for k in range(2)] +
+                [gen.scenario_violation_before_audit(f"vb{k}", k) for k in range(2)] +
+                [gen.gen_history(rng, f"h{i}") for i in range(n)])
 
     def run(self, rng, tier, work, model_ok=True, ncases=None, replay=None):
         n = ncases or (self.quick_n if tier == "quick" else self.thorough_n)
@@ -2196,6 +2326,15 @@ class HistorySpec(Spec):
         else:
             cases = load_corpus(self.pid) + self.gen_cases(rng, n)
         return hist.run_histories(self, cases, work, model_ok=model_ok)
+
+
+class _C12Hist(HistorySpec):
+    """the history stage of the C12 check (prune keeps an exemption, and each criterion it lists, only if needed)"""
+    pid = "C12"
+    oracle_fn = staticmethod(hist.oracle_c12)
+
+    def step_nontrivial(self, st):
+        return st.cls == "prune" and st.outcome == "ok"
 
 
 class C09(HistorySpec):
